@@ -31,6 +31,17 @@ def _index_loops(stmt, last, unsigned_const, tu=None):
         v = const_int(c)
         if v is not None:
             return bool(v)
+        if c.k == "DeclRefExpr":
+            # a local that names the condition (`const int is_sign_byte = ...`)
+            inits = [d.kids[-1] for d in stmt.walk() if d.k == "VarDecl" and d.n == c.n and d.kids
+                     and d.kids[-1].k != "Absent"]
+            assigns = [a for a in stmt.walk() if a.k == "BinaryOperator" and a.v == "=" and path(a.kids[0]) == c.n]
+            if len(inits) == 1 and not assigns:
+                return ev(inits[0])
+            return None
+        if c.k == "UnaryOperator" and c.v == "!":
+            r = ev(c.kids[0])
+            return None if r is None else not r
         if c.k == "BinaryOperator" and c.v == "||":
             a, b = ev(c.kids[0]), ev(c.kids[1])
             if a is True or b is True:
